@@ -21,11 +21,22 @@ EqR(a, b, s) == FCloseS(a, b, s, Lit("1e-9"))
 VARIABLE l
 PF == INSTANCE PVFunction WITH Add <- FAdd, Sub <- FSub, Mul <- FMul, Div <- FDiv, Lt <- FLt, Le <- FLe,
                                Eq <- EqR, Dec <- Lit, Exp <- FExp, PowInt <- FPowInt
+Th == INSTANCE Thermo WITH Add <- FAdd, Sub <- FSub, Mul <- FMul, Div <- FDiv, Lt <- FLt, Le <- FLe,
+                           Eq <- EqR, Dec <- Lit, Exp <- FExp, Ln <- FLog, Pow10 <- FPow10
+MB == INSTANCE Membrane WITH Add <- FAdd, Sub <- FSub, Mul <- FMul, Div <- FDiv, Lt <- FLt, Le <- FLe,
+                             Eq <- EqR, Dec <- Lit, Exp <- FExp, Ln <- FLog, Pow10 <- FPow10, Num <- FromInt
 TP == INSTANCE TemperatureProgram WITH Add <- FAdd, Mul <- FMul, Dec <- Lit, Exp <- FExp, Ln <- FLog, PowInt <- FPowInt
 Pr == INSTANCE Process WITH Add <- FAdd, Sub <- FSub, Mul <- FMul, Div <- FDiv, Lt <- FLt, Le <- FLe,
                             Eq <- EqX, Dec <- Lit, Num <- FromInt, Dev <- "none",
                             run <- l, time <- l, m <- l, x <- l, T <- l, J <- l, y <- l, P <- l, Qe <- l, Qc <- l, pc <- l
 
+\* the reference flux solver over the reference thermodynamics, for the run that line l belongs to
+RefPP(i, yy) == IF i.mode = "vac" THEN <<Lit("0.0"), Lit("0.0")>>
+                ELSE IF i.mode = "temp" THEN Th!PartialPressures(i.mix, i.variant, i.Tperm, yy, "weight")
+                ELSE <<FMul(i.pperm, yy), FMul(i.pperm, FSub(Lit("1.0"), yy))>>
+FS == INSTANCE FluxSolver WITH Add <- FAdd, Sub <- FSub, Mul <- FMul, Div <- FDiv, Lt <- FLt, Le <- FLe,
+                               Eq <- EqR, Dec <- Lit, PermPress <- RefPP, Bounded <- TRUE, MaxIter <- 300,
+                               inp <- l, y <- l, d <- l, n <- l, pc <- l, J <- l
 Starts == {j \in 1..Len(Trace) : Trace[j].i = 0}
 Init == l \in Starts
 Next == l < Len(Trace) /\ Trace[l + 1].i > 0 /\ l' = l + 1
@@ -118,4 +129,26 @@ Cl_NI_Step0 == (E.ev = "NIPoint" /\ E.j = 0) =>
                    /\ IF O.P0given THEN EqR(E.P[1], O.P0kg[1], E.P[1]) /\ EqR(E.P[2], O.P0kg[2], E.P[2])
                       ELSE \A i \in 1..2 : EqR(E.P[i], Expected(O, i, E.x, O.T, NIRebased), E.P[i])
 Cl_NI_Len == (E.ev = "NIEnd") => (E.nx = E.nP /\ E.nx = E.nJ /\ E.nx = O.N + 1 /\ E.i = E.nx + 1)
+
+(* ------------- the whole ideal process as an executable reference (DRIFT level) ------------- *)
+(* Start carries the mixture parameters and the membrane's experiments; every reported state is  *)
+(* re-computed by the specification: permeances by Membrane, fluxes by FluxSolver over Thermo,  *)
+(* latent heats and heat capacities by Component.                                               *)
+Variants(model) == IF model = "NRTL" THEN {"NRTL"} ELSE {"UNIQUAC", "UNIQUAC_AsImplemented"}
+HasRef == IsState /\ O.hasRef
+RefInp(v) == [P1 |-> E.P1, P2 |-> E.P2, prec |-> O.prec, mode |-> O.mode, Tperm |-> O.Tperm, pperm |-> O.pperm,
+              mix |-> O.mix, variant |-> v, pf |-> Th!PartialPressures(O.mix, v, E.T, E.x, "weight")]
+Ref_StepFluxes == HasRef => \E v \in Variants(O.model) :
+                    LET r == FS!Solve(RefInp(v))
+                        tot == FAdd(FAbs(E.J1), FAbs(E.J2))
+                    IN r.pc = "returned" => (EqR(FMul(E.J1, Lit("1.0")), r.J[1], FMul(tot, Lit("100.0")))
+                                             /\ EqR(E.J2, r.J[2], FMul(tot, Lit("100.0"))))
+Ref_IdealPermeance == (HasRef /\ O.ideal) =>
+                    LET p1 == MB!Permeance(O.exps1, E.T)
+                        p2 == MB!Permeance(O.exps2, E.T)
+                    IN (~p1.raise /\ ~p2.raise) => (EqR(E.P1, p1.v, p1.v) /\ EqR(E.P2, p2.v, p2.v))
+Ref_Heats == HasRef => /\ EqR(E.h1, FMul(FDiv(Th!Cpt!Hvap(O.mix.vp1, E.T), O.M1), Lit("1000.0")), E.h1)
+                       /\ EqR(E.h2, FMul(FDiv(Th!Cpt!Hvap(O.mix.vp2, E.T), O.M2), Lit("1000.0")), E.h2)
+                       /\ EqR(E.cp1, FDiv(Th!Cpt!Cp(O.hc1, E.T), O.M1), E.cp1)
+                       /\ EqR(E.cp2, FDiv(Th!Cpt!Cp(O.hc2, E.T), O.M2), E.cp2)
 =============================================================================
